@@ -210,4 +210,7 @@ class Parameter(AnnotatedValue):
 
 def make_item_name(array, index):
     """Create a name from an indexable object and its index."""
+    if isinstance(index, AnnotatedValue):
+        # Let constants and macro parameters are written by name
+        index = index.name
     return f"{array.name}[{index}]"
